@@ -317,6 +317,11 @@ def step (d : DSt) (j : Json) : DSt × List String :=
     let hk := ((jArr j "hk").filterMap (fun x => x.getNat?.toOption)).toArray
     let c0s := (jArr j "c0").filterMap (fun x => x.getNat?.toOption)
     let c0 := (hk.toList.zip c0s).foldl (fun (m : Std.HashMap Nat Nat) (p : Nat × Nat) => m.insert p.1 p.2) {}
+    let c0 := (jArr j "xh").foldl (fun (m : Std.HashMap Nat Nat) x => match x with
+      | .arr a => match a.toList.filterMap (fun y => y.getNat?.toOption) with
+        | [h, c] => m.insert h c
+        | _ => m
+      | _ => m) c0
     let pairs := (jArr j "chain").filterMap (fun x => match x with
       | .arr a => match a.toList.filterMap (fun y => y.getNat?.toOption) with
         | [a, b] => some (a, b)
@@ -326,7 +331,8 @@ def step (d : DSt) (j : Json) : DSt × List String :=
     ({ d with ib := { hk := hk, c0 := c0, chain := chain } }, [s!"ibltuni keys={hk.size} chain={pairs.length}"])
   | "bidx" =>
     let H := d.ib.hash
-    (d, [s!"bidx {natList (Iblt.bucketIndices H ibltPar (jNat j "n") (H.hashKey (jNat j "v")))}"])
+    let kh := if jNat j "h" != 0 then jNat j "h" else H.hashKey (jNat j "v")
+    (d, [s!"bidx {natList (Iblt.bucketIndices H ibltPar (jNat j "n") kh)}"])
   | "iblt" =>
     let H := d.ib.hash
     let loc := Iblt.encode H ibltPar (jNat j "n") (jNats j "loc")
